@@ -14,6 +14,7 @@ VERIF = os.path.dirname(os.path.dirname(os.path.abspath(__file__)))
 def run_check(pid, tier, seed, repo_src=None, update_ledger=False):
     from . import hook, core
     from .terms import Unsupported
+    from .rt import FloatDomainError
 
     hook.install(repo_src or os.environ.get("PYVC_REPO_SRC") or "/repo/src")
     sys.path.insert(0, VERIF)
@@ -22,6 +23,14 @@ def run_check(pid, tier, seed, repo_src=None, update_ledger=False):
         mod = importlib.import_module(f"contracts.{pid}")
         chk = core.Check(pid, tier, seed, level=getattr(mod, "LEVEL", "proof"))
         mod.run(chk)
+    except FloatDomainError as e:
+        tb = traceback.extract_tb(e.__traceback__)
+        where = next((f"{f.filename.split('/src/')[-1]}:{f.lineno} in {f.name}" for f in reversed(tb) if "/src/eko" in f.filename), "repository code")
+        if chk is None:
+            print(f"CHECKER-ERROR property={pid} {e}")
+            return 3
+        chk.fail(f"{pid}.float_domain", f"{e} [{where}]", fn=where, goal="real-typed sqrt / log stay inside their domain (no nan)")
+        return chk.finish()
     except Unsupported as e:
         traceback.print_exc()
         print(f"CHECKER-ERROR property={pid} unsupported construct: {e}")
